@@ -1,0 +1,62 @@
+//go:build verif
+
+// Machine contracts of the Prometheus instrumentation operators (C19): every callback forwards exactly the
+// notification it received (same context, except for the processing-time checkpoint value that is added to it,
+// same value) and performs exactly one increment / observation of the intended collector. Comments only.
+
+package roprometheus
+
+//@ operator IncCounterOnNext
+//@   props C19 C09
+//@   track counter.*
+//@   on next(ctx, value) : emits counter.Inc(), Next(ctx, value)
+
+//@ operator IncCounterOnError
+//@   props C19 C09
+//@   track counter.*
+//@   on next(ctx, value) : emits Next(ctx, value)
+//@   on error(ctx, err) : emits counter.Inc(), Error(ctx, err)
+
+//@ operator IncCounterOnComplete
+//@   props C19 C09
+//@   track counter.*
+//@   on next(ctx, value) : emits Next(ctx, value)
+//@   on complete(ctx) : emits counter.Inc(), Complete(ctx)
+
+//@ operator ObserveNextLag
+//@   props C19 C09
+//@   track summaryOrHistogram.*
+//@   on next(ctx, value) : emits Next(ctx, value), summaryOrHistogram.Observe(_)
+
+//@ operator observeBeforePipe
+//@   props C19 C09
+//@   track counterOnNext.* summaryOrHistogram.*
+//@   on next(ctx, value) : emits counterOnNext.Inc(), Next(withvalue(ctx), value), summaryOrHistogram.Observe(_)
+
+//@ operator observeOperatorProcessingTime
+//@   props C19 C09
+//@   track prometheusObserver.*
+//@   on next(ctx, value) when is_int64(res(ctx.Value)) : emits prometheusObserver.Observe(_), Next(withvalue(ctx), value)
+//@   on next(ctx, value) when !is_int64(res(ctx.Value)) : emits Next(withvalue(ctx), value)
+
+//@ operator observeAfterPipe
+//@   props C19 C09
+//@   track counterOnNext.* counterOnSubscription.*
+//@   on next(ctx, value) : emits counterOnNext.Inc(), Next(ctx, value)
+//@   on subscribe(subscriberCtx, destination) : emits counterOnSubscription.Inc()
+
+//@ func IncCounterOnSubscription$1$1
+//@   note the subscribe function of IncCounterOnSubscription: one increment, then the source subscribed with the destination itself
+//@   props C19 C09 C14
+//@   track counter.* source.*
+//@   ensures [one-increment-then-pass-through|C19] trace(counter.Inc(), source.SubscribeWithContext(subscriberCtx, destination))
+//@   ensures [releases-the-source|C14] result == bound_Unsubscribe(res(source.SubscribeWithContext))
+
+//@ func checkLicenseAndPipe$1
+//@   note the subscribe function behind every PipeN: the licence is looked up per subscription and only selects which
+//@   note composition is subscribed, with the same context and destination
+//@   props C19 C14
+//@   track call.isPrometheusEnabled call.wrapPipeWithObservability callfn.* p().* wrapPipeWithObservability().*
+//@   ensures [licence-checked-per-subscription|C19] count(call.isPrometheusEnabled) == 1
+//@   ensures [licensed-subscribes-the-instrumented-composition|C19] res(call.isPrometheusEnabled) == true ==> called(call.wrapPipeWithObservability) && arg(call.wrapPipeWithObservability, 1) == instrumentedPipe
+//@   ensures [unlicensed-subscribes-the-plain-composition|C19] res(call.isPrometheusEnabled) == false ==> !called(call.wrapPipeWithObservability) && called(callfn.stdPipe) && arg(callfn.stdPipe, 0) == source
